@@ -193,12 +193,24 @@ func c12History(t *testing.T, r *kit.Run, hi int, h *history, p *plan, ao annOpt
 	if h.regime != "commit" {
 		o.Probe("pre-commit-regime")
 	}
+	if h.dates == "late" || h.dates == "straddling" {
+		o.Probe("no-committed-values-on-or-after-2012-09-12")
+	}
 	if first >= 0 {
 		big, ties, multi := false, false, false
 		for i := range execs[first].res.parents {
 			pv := &execs[first].res.parents[i]
 			if len(pv.updates) > 12 {
 				big = true
+			}
+			for k := 1; k < len(pv.updates); k++ {
+				a, b := pv.updates[k-1], pv.updates[k]
+				if a.Index == b.Index && a.Timestamp.Equal(b.Timestamp) && a.ChangesetID != b.ChangesetID {
+					o.Probe("tied-updates-from-different-changesets")
+					if (a.Version < b.Version) != (a.ChangesetID < b.ChangesetID) {
+						o.Probe("tied-updates-with-changeset-ids-not-rising-with-versions")
+					}
+				}
 			}
 			seen := map[string]bool{}
 			for _, u := range pv.updates {
